@@ -701,7 +701,7 @@ fn gen_kernel(r: &mut Xo, psd_only: bool, small_poly: bool) -> KSpec {
     let kind = r.pick(kinds).to_string();
     match kind.as_str() {
         "linear" => KSpec { kind, gamma: 0.0, degree: 0.0, coef0: 0.0 },
-        "rbf" => KSpec { kind, gamma: *r.pick(&[0.01, 0.1, 0.5, 1.0, 2.0]), degree: 0.0, coef0: 0.0 },
+        "rbf" => KSpec { kind, gamma: *r.pick(&[0.01, 0.1, 0.5, 1.0, 2.0, 10.0]), degree: 0.0, coef0: 0.0 },
         "poly" => KSpec {
             kind,
             gamma: *r.pick(&[0.1, 0.5, 1.0]),
